@@ -32,3 +32,36 @@ func (r *registry) Unchecked(name string) int {
 	}
 	return v.(*item).n
 }
+
+type codedError struct {
+	Code  int
+	Extra map[string]interface{}
+}
+
+func (e *codedError) Error() string { return "coded" }
+
+// ErrShared is a sentinel handed to every caller.
+var ErrShared = &codedError{Code: 1}
+
+// Annotate writes into an error value it received: errors-immutable must fire.
+func Annotate(err error, uri string) {
+	if ce, ok := err.(*codedError); ok {
+		if ce.Extra == nil {
+			ce.Extra = map[string]interface{}{}
+		}
+		ce.Extra["uri"] = uri
+	}
+}
+
+type shard struct {
+	mu sync.Mutex
+	n  int
+}
+
+type shards struct{ list []shard }
+
+// CopyShard hands out a copy of a shard, lock included: locks-not-copied must fire.
+func (s *shards) CopyShard(i int) *shard {
+	sh := s.list[i]
+	return &sh
+}
